@@ -41,6 +41,10 @@ func timeoutFor(op string) time.Duration {
 	if op == "uistress" {
 		return 300 * time.Second
 	}
+	if op == "par" {
+		/* a batch of ops, three times over, possibly under the race detector */
+		return 180 * time.Second
+	}
 	return opTimeout
 }
 
